@@ -308,8 +308,10 @@ def run_property(prop, tier, seed):
     ev = dict(property_id=prop, tier=tier, seed=seed, level=run_level, coverage=cov,
               assumptions=[ASSUMPTIONS[a] for a in getattr(mod, "ASSUMES", ["A1", "A2", "A5", "A6"])] + list(getattr(mod, "EXTRA_ASSUMPTIONS", [])),
               wall_s=wall, violations=len(violations))
-    os.makedirs(os.path.join(ROOT, "evidence"), exist_ok=True)
-    json.dump(ev, open(os.path.join(ROOT, "evidence", prop + ".json"), "w"), indent=1, default=str)
+    # runs against deliberately changed trees (seeded changes, behaviour-preserving patches) set G3DVC_EVIDENCE_DIR so that evidence/ only ever describes /repo itself
+    evdir = os.environ.get("G3DVC_EVIDENCE_DIR") or os.path.join(ROOT, "evidence")
+    os.makedirs(evdir, exist_ok=True)
+    json.dump(ev, open(os.path.join(evdir, prop + ".json"), "w"), indent=1, default=str)
 
     for l in known_lines:
         print(l)
